@@ -52,26 +52,26 @@ type LoopSpec struct {
 }
 
 type Contract struct {
-	FuncPat  string // name as written
-	Mode     Mode
-	ModeSet  bool
-	Inline   bool
-	Trusted  bool
-	Lets     []Clause // Label = name
-	Requires []Clause
-	ClosureInv []Clause // holds between complete calls of a range-over-func body closure (see iteratorCall)
-	Captures []Clause // facts about captured variables: proved where the closure is created, assumed at its entry
-	Ensures  []Clause
-	Assigns  []string
-	HasAssigns bool
-	Loops    map[int]*LoopSpec
-	Rels     []Clause
-	Chains   []Chain
-	PathKeys []Clause // integer expressions whose (constant) value at a return is appended to obligation names
+	FuncPat     string // name as written
+	Mode        Mode
+	ModeSet     bool
+	Inline      bool
+	Trusted     bool
+	Lets        []Clause // Label = name
+	Requires    []Clause
+	ClosureInv  []Clause // holds between complete calls of a range-over-func body closure (see iteratorCall)
+	Captures    []Clause // facts about captured variables: proved where the closure is created, assumed at its entry
+	Ensures     []Clause
+	Assigns     []string
+	HasAssigns  bool
+	Loops       map[int]*LoopSpec
+	Rels        []Clause
+	Chains      []Chain
+	PathKeys    []Clause            // integer expressions whose (constant) value at a return is appended to obligation names
 	CallAssumes map[string][]Clause // callee name -> assumptions made at its call sites (documented, unproved)
-	Params   map[string]string
-	Line     int
-	Opts     map[string]string
+	Params      map[string]string
+	Line        int
+	Opts        map[string]string
 }
 
 type Chain struct {
